@@ -519,6 +519,8 @@ pub fn run(ctx: &mut Ctx) {
         }
         let mut p = Prng::new(sub, "i");
         let (kea, keb) = (rand_scalar(&mut p, &(&pr.n - 1u32)), rand_scalar(&mut p, &(&pr.n - 1u32)));
+        // every other history: opposite master keys keB = N - keA (public keys P and -P share their x coordinate)
+        let keb = if i % 2 == 1 { &pr.n - &kea } else { keb };
         let id = p.bytes(6);
         let (ma, mb) = (p.bytes(30), p.bytes(30));
         let (ra, rb) = (rand_scalar(&mut p, &(&pr.n - 1u32)), rand_scalar(&mut p, &(&pr.n - 1u32)));
